@@ -8,6 +8,10 @@ the C08 driver whenever that reader accepts the text).  Wherever the implementat
 every returned term must be semantically equal to the intended one under sampled
 interpretations (`chk_equiv` of the shared Sem driver).  Malformed variants must be rejected
 with an error.  Every file of the offline benchmark corpus must still be accepted.
+Dedicated streams (run first, small): simultaneous lets that rebind names with an outer meaning (`build_simlet_script`,
+`LET_WITNESSES`), the 3-4 argument forms of the chainable / associative / pairwise operators with the standard's expansion as
+meaning (`build_nary_script`: accepted => same meaning, else rejected), one undeclared name in every position of every
+term-carrying command, bare or under `!` annotations, with its declared-name control (`undeclared_case`).
 
 K: the implementation's `get_script` result (wire encoding of every command argument) against
 the Lean model `Impl.Parser` (driver request `pread <hex text>`), literal comparison after
